@@ -110,8 +110,7 @@ def run(tier: str) -> int:
                     if not (np.array_equal(atoms.positions, xe) and np.array_equal(atoms.get_momenta(), pe)):
                         rep.violation(f"lattice:trajectory:dt=2^-{s}:n={n}", f"Verlet.integrate (dt = 2^-{s}, {n} steps, harmonic well) ends at x = {atoms.positions.ravel()[:3]}, p = {atoms.get_momenta().ravel()[:3]}; the exact velocity-Verlet trajectory ends at x = {xe.ravel()[:3]}, p = {pe.ravel()[:3]}", info)
                         continue
-                    if nev != n + 1:
-                        rep.violation("lattice:force-evaluations", f"{nev} force evaluations for {n} steps (expected {n + 1})", info)
+                    # (the number of force evaluations, n + 1 in Verlet.tla, is not part of the statement: not judged)
                     atoms.set_momenta(-atoms.get_momenta())
                     integ.integrate(ctx)
                     atoms.set_momenta(-atoms.get_momenta())
